@@ -349,6 +349,8 @@ class Molecule(nx.Graph):
     # As the particles are stored as nodes, we want the nodes to stay
     # ordered.
     node_dict_factory = OrderedDict
+    # Cached highest node key, see `merge_molecule`. None means unknown.
+    max_node = None
 
     def __init__(self, *args, **kwargs):
         self.meta = kwargs.pop('meta', {})
@@ -663,12 +665,38 @@ class Molecule(nx.Graph):
         else:
             raise AttributeError('Unknown attribute "{}".'.format(name))
 
-    def add_node(self, *args, **kwargs):
-        super().add_node(*args, **kwargs)
-        if self.max_node:
-            self.max_node += 1
-        else:
-            self.max_node = 0
+    def _update_max_node(self, node):
+        """
+        Keep :attr:`max_node`, the cached highest node key used by
+        :meth:`merge_molecule`, up to date when `node` is added. A value of
+        `None` means the cache is invalid and must be recomputed.
+        """
+        if self.max_node is not None:
+            try:
+                if node > self.max_node:
+                    self.max_node = node
+            except TypeError:
+                self.max_node = None
+
+    def add_node(self, node_for_adding, **attr):
+        super().add_node(node_for_adding, **attr)
+        self._update_max_node(node_for_adding)
+
+    def add_nodes_from(self, nodes_for_adding, **attr):
+        # We don't know which keys get added, so invalidate the cache.
+        self.max_node = None
+        super().add_nodes_from(nodes_for_adding, **attr)
+
+    def add_edge(self, u_of_edge, v_of_edge, **attr):
+        # Adding an edge implicitly creates the nodes that do not exist yet.
+        for node in (u_of_edge, v_of_edge):
+            if node not in self:
+                self._update_max_node(node)
+        super().add_edge(u_of_edge, v_of_edge, **attr)
+
+    def add_edges_from(self, ebunch_to_add, **attr):
+        self.max_node = None
+        super().add_edges_from(ebunch_to_add, **attr)
 
     def merge_molecule(self, molecule):
         """
@@ -702,7 +730,7 @@ class Molecule(nx.Graph):
                 .format(self.nrexcl, molecule.nrexcl)
             )
         if self.nodes():
-            if not self.max_node:
+            if self.max_node is None or self.max_node not in self:
                 # hopefully it is a small graph when this is called.
                 self.max_node = max(self)
 
@@ -959,6 +987,8 @@ class Molecule(nx.Graph):
         get deleted.
         """
         super().remove_node(node)
+        if node == self.max_node:
+            self.max_node = None
         self._remove_interactions_with_node(node)
 
     def remove_nodes_from(self, nodes):
@@ -969,6 +999,7 @@ class Molecule(nx.Graph):
         the graph and hence does not get deleted.
         """
         super().remove_nodes_from(nodes)
+        self.max_node = None
         for node in nodes:
             self._remove_interactions_with_node(node)
 
